@@ -6,6 +6,8 @@ CONSTANTS
   MixKinds = FALSE
   AsmForms = FALSE
   DevsOn = {"ExternInheritsNoLinkage", "ThreadNoTentative", "ThreadMismatchNotDiagnosed", "InlineLateExternal", "NoUsedInternalUndefDiag"}
+  OkPrefix = FALSE
+  SampleMod = 1
   Emit = "none"
 INVARIANTS Inv_Refines Inv_OneDef Inv_ExportedExt Inv_FiredExplains Inv_Emit
 CHECK_DEADLOCK FALSE
